@@ -559,7 +559,10 @@ Definition calculate_length (path : list Pos) (expected : option F64) (opt : F64
   match expected with
   | None => Done (path, cum)
   | Some e =>
-      if negb (D.ge (D.abs (D.sub calculated e)) D.eps) then Done (path, cum)   (* filter *)
+      (* expected_len.filter(|&len| (calculated_len - len).abs() > 0.0): a requested
+         length is ignored only when it does not differ from the calculated one
+         (difference +-0.0, or NaN: NaN > 0.0 is false) *)
+      if negb (D.gt (D.abs (D.sub calculated e)) D.zero) then Done (path, cum)
       else if last_two_equal path && D.gt e calculated then Done (path, cum ++ [calculated])
       else if Nat.eqb (length cum) 1 then Done (path, cum)
       else
